@@ -7,6 +7,7 @@ CONSTANTS NumNodes <- WNumNodes
           HashLen = 32
           Versions <- WVersions
           MaxRef = 1
+          EdgeDepth <- WEdgeDepth
 INVARIANTS GarbageProbe
 VIEW View
 CHECK_DEADLOCK FALSE
